@@ -45,7 +45,7 @@ pub async fn handle_remote_write(State(state): State<ApiState>, body: Bytes) -> 
     };
 
     // 4. Ingest
-    match state.ingester.write(batch).await {
+    match state.ingester.write_detached(batch).await {
         Ok(_) => StatusCode::NO_CONTENT, // 204 = success
         Err(_) => StatusCode::INTERNAL_SERVER_ERROR,
     }
